@@ -39,6 +39,12 @@ CHECKS = {
     "C08": ("R-SIB alt.rs twins + version-purity of every *_v1/*_v2 function, R-PAIR delete-set union over every input, R-GUARD encode_diff selection",
             "Narrow: 'for v1 and v2 alike' (twins agree, no cross-version call anywhere), delete sets of all inputs are merged, per-client "
             "filtering reads the given state vector. The k-way merge itself is value-level and NOT decided.", "4 C08"),
+    "C09": ("R-WIRE writer/reader grammar agreement (word languages extracted from resolved HIR, 27 function pairs), count/trip-count linear identities, flag/field agreement by exact MIR path formulas, primitive-layer method pairing (v1, v2, Write/Read defaults, column order), tag/bias tables",
+            "Decides that every codec pair agrees structurally: same primitive sequences per arm, counts equal loop trips, optional fields written iff their flag bit is set and read iff tested, v1/v2 primitive layers mirror each other. "
+            "Does NOT decide value-level equality (number classing, RLE run state) nor that Yjs assets decode.", "4 C09"),
+    "C10": ("instantiated (monomorphic) call graph from the decode entry points (rustc_private mono walk incl. foreign generic MIR), R-PANIC on MIR Assert terminators + panic-API call table with sound local discharge patterns and a frozen bound table, R-ALLOC wire-taint to allocation sizes, R-REC SCCs, R-UB unchecked calls",
+            "Decides absence of panic / unbounded-allocation / unbounded-recursion / UB constructs in the parse layer of the decode cone (every site discharged by pattern, frozen bound argument, or reported); "
+            "L2 arithmetic/indexing on decoded values is inventory. Does NOT decide time/memory bounds as numbers (e.g. v2 run-length counts).", "4 C10"),
     "C11": ("R-OWN/R-ORDER dispatch structure (trigger once per changed type, behind the commit latch), exact formula of add_changed_type, R-GUARD path counting, compile_fail witness (thorough)",
             "Narrow: at most one event per observer per transaction, ownership of the changed set, path indices count live countable items, and "
             "(thorough) a witness that an observer cannot mutate through &TransactionMut. Exactness of deltas is NOT decided.", "4 C11"),
@@ -63,15 +69,15 @@ CHECKS = {
     "C18": ("R-SIB Protocol/AsyncProtocol handlers, R-PROV handler dataflow, exact path-formula implication of the awareness clock guard",
             "Decides handler-by-handler agreement of the two protocol traits, the handshake dataflow, and that every write to an existing awareness "
             "state implies the strict clock guard. Convergence under interleavings is NOT decided.", "4 C18"),
+    "C19": ("R-ABI typed Rust signature vs parsed C prototype for all 206 exports, R-PROV wrapper->API callee sets vs frozen reviewed table + v1/v2 twins + version purity, R-PROV scalar pass-through name classes, R-TABLE tag constants and producer/consumer union-field agreement",
+            "Decides that a C caller compiled against libyrs.h hits the signature Rust implements, that every wrapper still delegates to the reviewed API items, that integer parameters land on same-class parameters, and that tag tables agree. "
+            "Behavioural conformance of C-driven documents is NOT decided.", "4 C19"),
     "C20": ("R-PAIR flag/index pairing, links copied at every split site, unlink on delete (path formula), dependency checks, boundary provenance",
             "Decides the link bookkeeping clauses at every set/clear/split/delete site. That a quotation yields exactly the current range over "
             "histories is NOT decided.", "4 C20"),
 }
 
 PENDING = {
-    "C09": "wire-grammar engine (R-WIRE) under construction in this session; will be claimed once its checks run",
-    "C10": "decode-cone engine (R-PANIC/R-ALLOC/R-REC/R-UB) under construction in this session",
-    "C19": "FFI surface engine (R-ABI) under construction in this session",
 }
 
 
